@@ -921,7 +921,20 @@ def c5(repo: Repo) -> RuleResult:
     # prefix option flows only through _get_definition_name_prefix; C macros upper-case it via the Constant/EnumField styles
     gp = m.func("renderer/formatter.py", "Formatter._get_definition_name_prefix")
     res.inst(part="common", where=gp.qual)
-    if "bound.get_option_as_string_or_raise(option_name)" not in src_of(gp.node) or "self.definition_name_prefix_option_name()" not in src_of(gp.node):
+    recv_src = None
+    for n in ast.walk(gp.node):
+        if isinstance(n, ast.Call) and isinstance(n.func, ast.Attribute) and n.func.attr == "get_option_as_string_or_raise":
+            r = n.func.value
+            if isinstance(r, ast.Name):
+                vals = [src_of(a.value) for a in ast.walk(gp.node) if isinstance(a, ast.Assign) and any(isinstance(t, ast.Name) and t.id == r.id for t in a.targets)]
+                recv_src = vals[0] if len(vals) == 1 else "?"
+            else:
+                recv_src = src_of(r)
+    if recv_src is not None and not recv_src.endswith(".bound"):
+        f = Finding("C5", gp.rel, gp.node.lineno, gp.qual, str(recv_src), f"the name prefix is read from `{recv_src}`, not from the proto the definition is bound to: an imported definition is named with another file's prefix in the importing file", witness="two files with different c.name_prefix, one importing the other: the importer refers to struct names the imported header does not declare", tag="prefix:owner")
+        f.part = "common"
+        res.bad(f)
+    if "get_option_as_string_or_raise(option_name)" not in src_of(gp.node) or "self.definition_name_prefix_option_name()" not in src_of(gp.node):
         f = Finding("C5", gp.rel, gp.node.lineno, gp.qual, "", "the name prefix is not read from the bound proto's prefix option", tag="prefix:source")
         f.part = "common"
         res.bad(f)
